@@ -26,14 +26,28 @@
 #define VF_ALIGN 0
 #endif
 
+#ifdef VF_REPLAY
+static uint64_t vf_nd64_replay(void) { uint64_t v; static unsigned n; char name[16]; snprintf(name, sizeof(name), "w%u", n++); vf_replay_get(name, &v, sizeof(v)); return v; }
+#define VF_ND64()	vf_nd64_replay()
+#else
+#define VF_ND64()	nondet_uint64_t()
+#endif
+/* two contexts that agree on the chaining state; everything else (scratch) is zero */
+static CTX_T one, many;
+
 void harness(void) {
-	VF_NONDET_OBJ(CTX_T, ctx0);
 	VF_NONDET_BYTES(blk, VF_T_NBLK * VF_BLK + VF_ALIGN);
-	CTX_T one = ctx0, many = ctx0;
 	const uint8_t *p = blk.b + VF_ALIGN;
+	for (unsigned i = 0; i < sizeof(one.hash) / sizeof(one.hash[0]); i++)
+		one.hash[i] = many.hash[i] = VF_ND64();
 #if defined(VF_ALG_SHA2)
-	VF_ASSUME(ctx0.block_size == VF_BLK);
 	one.block_size = many.block_size = VF_BLK;
+#endif
+#if defined(VF_ALG_GOST)
+	for (unsigned i = 0; i < 8; i++) {
+		one.counter[i] = many.counter[i] = VF_ND64();
+		one.sigma[i] = many.sigma[i] = VF_ND64();
+	}
 #endif
 	CALL(&many, p, p + VF_T_NBLK * VF_BLK);
 	for (unsigned b = 0; b < VF_T_NBLK; b++)
